@@ -635,3 +635,167 @@ pub fn gate(c: &CmdSpec) -> Result<Command, crate::core::Panic> {
         cmd
     })
 }
+
+// ---------------------------------------------------------------- compact rendering for reports
+
+pub fn brief_arg(a: &ArgSpec) -> String {
+    let mut s = format!("{}", a.id);
+    if let Some(c) = a.short {
+        s.push_str(&format!(" -{}", c));
+    }
+    if let Some(l) = &a.long {
+        s.push_str(&format!(" --{}", l));
+    }
+    if !a.aliases.is_empty() {
+        s.push_str(&format!(" aliases{:?}", a.aliases));
+    }
+    if !a.short_aliases.is_empty() {
+        s.push_str(&format!(" short_aliases{:?}", a.short_aliases));
+    }
+    if let Some(act) = &a.action {
+        s.push_str(&format!(" {:?}", act));
+    }
+    if let Some(i) = a.index {
+        s.push_str(&format!(" index={}", i));
+    }
+    if let Some((lo, hi)) = a.num_args {
+        if hi == usize::MAX {
+            s.push_str(&format!(" num_args={}..", lo));
+        } else {
+            s.push_str(&format!(" num_args={}..={}", lo, hi));
+        }
+    }
+    macro_rules! opt {
+        ($f:ident) => {
+            if let Some(v) = &a.$f {
+                s.push_str(&format!(" {}={:?}", stringify!($f), v));
+            }
+        };
+    }
+    macro_rules! flag {
+        ($f:ident) => {
+            if a.$f {
+                s.push_str(concat!(" ", stringify!($f)));
+            }
+        };
+    }
+    macro_rules! list {
+        ($f:ident) => {
+            if !a.$f.is_empty() {
+                s.push_str(&format!(" {}={:?}", stringify!($f), a.$f));
+            }
+        };
+    }
+    opt!(delim);
+    opt!(terminator);
+    flag!(require_equals);
+    flag!(allow_hyphen);
+    flag!(allow_negative);
+    flag!(last);
+    flag!(trailing_var_arg);
+    list!(defaults);
+    list!(default_missing);
+    list!(default_ifs);
+    opt!(env);
+    opt!(vp);
+    flag!(ignore_case);
+    flag!(required);
+    flag!(exclusive);
+    flag!(global);
+    flag!(hide);
+    flag!(hide_short_help);
+    flag!(hide_long_help);
+    flag!(hide_possible_values);
+    flag!(hide_default_value);
+    flag!(next_line_help);
+    opt!(help);
+    opt!(long_help);
+    opt!(heading);
+    opt!(display_order);
+    list!(value_names);
+    opt!(hint);
+    list!(conflicts);
+    list!(requires);
+    list!(requires_ifs);
+    list!(overrides);
+    list!(required_unless_any);
+    list!(required_unless_all);
+    list!(required_if_eq_any);
+    list!(required_if_eq_all);
+    s
+}
+
+pub fn brief(c: &CmdSpec) -> String {
+    let mut s = String::new();
+    brief_into(c, 0, &mut s);
+    s
+}
+
+fn brief_into(c: &CmdSpec, depth: usize, s: &mut String) {
+    let pad = "  ".repeat(depth);
+    s.push_str(&format!("\n{}cmd {:?}", pad, c.name));
+    if !c.aliases.is_empty() {
+        s.push_str(&format!(" aliases{:?}", c.aliases));
+    }
+    if let Some(f) = c.short_flag {
+        s.push_str(&format!(" short_flag=-{}", f));
+    }
+    if let Some(f) = &c.long_flag {
+        s.push_str(&format!(" long_flag=--{}", f));
+    }
+    if !c.short_flag_aliases.is_empty() {
+        s.push_str(&format!(" short_flag_aliases{:?}", c.short_flag_aliases));
+    }
+    if !c.long_flag_aliases.is_empty() {
+        s.push_str(&format!(" long_flag_aliases{:?}", c.long_flag_aliases));
+    }
+    if !c.settings.is_empty() {
+        s.push_str(&format!(" {:?}", c.settings));
+    }
+    macro_rules! opt {
+        ($f:ident) => {
+            if let Some(v) = &c.$f {
+                s.push_str(&format!(" {}={:?}", stringify!($f), v));
+            }
+        };
+    }
+    opt!(about);
+    opt!(long_about);
+    opt!(before_help);
+    opt!(before_long_help);
+    opt!(after_help);
+    opt!(after_long_help);
+    opt!(version);
+    opt!(long_version);
+    opt!(author);
+    opt!(term_width);
+    opt!(max_term_width);
+    opt!(help_template);
+    opt!(next_help_heading);
+    opt!(subcommand_help_heading);
+    opt!(subcommand_value_name);
+    opt!(display_name);
+    opt!(bin_name);
+    opt!(override_usage);
+    if c.external_string {
+        s.push_str(" external=String");
+    }
+    for a in &c.args {
+        s.push_str(&format!("\n{}  arg {}", pad, brief_arg(a)));
+    }
+    for g in &c.groups {
+        s.push_str(&format!(
+            "\n{}  group {} members={:?}{}{}{}{}",
+            pad,
+            g.id,
+            g.members,
+            if g.required { " required" } else { "" },
+            if g.multiple { " multiple" } else { "" },
+            if g.conflicts.is_empty() { String::new() } else { format!(" conflicts={:?}", g.conflicts) },
+            if g.requires.is_empty() { String::new() } else { format!(" requires={:?}", g.requires) },
+        ));
+    }
+    for sc in &c.subs {
+        brief_into(sc, depth + 1, s);
+    }
+}
